@@ -27,7 +27,7 @@ from typing import Any, Dict, Iterable, List, Optional, Tuple
 
 HOME = os.environ.get('VERIF_HOME', '/verif')
 REPO = os.environ.get('VERIF_REPO', '/repo')
-DEFAULT_CAP = {'quick': 240.0, 'thorough': 2400.0}
+DEFAULT_CAP = {'quick': 900.0, 'thorough': 3600.0}     # upper limits only: a loaded machine must not cut a quick run short (a cut run is reported as cap_hit)
 
 
 # ------------------------------------------------------------------------------------
